@@ -36,7 +36,7 @@ Print Assumptions C16_roundtrip.
 Theorem C16_import_export : forall idf cfg b e n pk purl kept,
   jsize (export_ent idf cfg pk purl kept e) <= n ->
   import_fuel n b (export_ent idf cfg pk purl kept e) = Ok (xlate idf cfg b pk purl kept e).
-Proof. intros. now apply import_export_ent. Qed.
+Proof. intros idf cfg b e. exact (import_export_ent idf cfg b e). Qed.
 Print Assumptions C16_import_export.
 
 (* the link goes to the entity's own page: two different page-owning entities of A's modules never
@@ -119,11 +119,7 @@ Theorem C16_local_first_find_partial : forall B tops n child,
   (lower_in n (local_names B CModules) = true \/ lower_in n (local_names B CSubmodules) = true)
   \/ (ext_named tops n = false /\ defined_locally B n = true) ->
   exists h, project_find B tops n None child = Ok (Some h) /\ is_local h = true.
-Proof.
-  intros B tops n child [H|[H1 H2]].
-  - now apply find_local_module_first.
-  - now apply find_local_when_no_ext.
-Qed.
+Proof. exact local_first_find_partial. Qed.
 Print Assumptions C16_local_first_find_partial.
 Theorem C16_local_first_find_refuted : ~ C16_local_first_find_statement.
 Proof.
@@ -142,7 +138,7 @@ Definition C16_load_errors_contained_statement : Prop :=
 Theorem C16_load_errors_contained_partial : forall src,
   benign src ->
   survives (load src) = true /\ (has_description src = false -> only_links_lost (load src) = true).
-Proof. intros src H. split; [now apply load_contained_partial|now apply load_failed_only_links]. Qed.
+Proof. exact load_errors_contained_partial. Qed.
 Print Assumptions C16_load_errors_contained_partial.
 Theorem C16_load_errors_contained_refuted_missing :
   forall d, survives (load (SLocal d LMissing)) = false.
@@ -179,19 +175,7 @@ Example C16_roundtrip_nonvacuous :
   consistent (all_reqs A_ex) /\
   Forall (fun r => no_tilde (final_name (r_name r))) (all_reqs A_ex) /\
   display_default (c_display (a_cfg A_ex)) = true.
-Proof.
-  split; [exact wf_A_ex|]. split; [exists (s "https://docs.example.org/a"); split; reflexivity|].
-  split; [exact I|]. split.
-  { exists (Ent 8 KModule (s "mb") Private
-              [Ent 9 KSubroutine (s "Init") Public []; Ent 10 KType (s "shape_t") Public []]),
-           (Ent 9 KSubroutine (s "Init") Public []).
-    repeat split; try (vm_compute; tauto). }
-  split.
-  { apply consistent_of_nodup. vm_compute. repeat constructor; simpl; intuition discriminate. }
-  split; [|reflexivity].
-  unfold A_ex, all_reqs; cbn [a_pre a_modules app flat_map tree_reqs].
-  repeat (apply Forall_cons || apply Forall_nil); intros H; vm_compute in H; intuition discriminate.
-Qed.
+Proof. exact roundtrip_nonvacuous. Qed.
 
 (* ---------------------------------------------------------------- the tables of the working tree *)
 
